@@ -92,11 +92,13 @@ def main():
             r = subprocess.run([sys.executable, os.path.join(V, "verif.py"), "check", m["property"], "--tier", a.tier], stdout=subprocess.PIPE, stderr=subprocess.STDOUT, text=True, env=env, cwd=V)
             dt = time.time() - t0
             viol = re.findall(r"^VIOLATION property=(\S+)", r.stdout, re.M)
-            builderr = "BUILD-ERROR" in r.stdout
+            builderr = "BUILD-ERROR" in r.stdout or "build failed" in r.stdout
             why = ""
             mm = re.search(r"why: (.*)", r.stdout) or re.search(r"ERROR: (\w+Sanitizer: [\w-]+)", r.stdout) or re.search(r"runtime error: (.*)", r.stdout)
             if mm:
                 why = mm.group(1)[:160]
+            if builderr:
+                why = "[HARNESS/ENGINE DID NOT BUILD] " + r.stdout[-200:].replace("\n", " ")
             if "did not reproduce" in r.stdout:
                 why = "[UNREPRODUCIBLE CANDIDATE: replay encoding or state leak?] " + why
             row = {"id": m["id"], "property": m["property"], "suite": st, "caught": bool(viol) and r.returncode == 1, "build_error": builderr, "seconds": round(dt, 1), "first_reason": why,
